@@ -1,23 +1,30 @@
 """C10 - CAM and VAM generation follow the timing and trigger rules of their standards.
 
 The interval bounds over trajectories under a timer are statements about runs and are declined.  Decided are the
-structural conditions those bounds rest on (each is necessary: remove it and some trajectory violates the bound):
-minimum-interval guard in front of every generation, clamp of T_GenCam into [T_GenCamMin, T_GenCamMax] and the
-condition-2 guard, the three dynamics thresholds against the values captured at the last CAM, re-arming of the check
-timer on every exit while active, start/stop discipline, low-frequency container inclusion and stamping,
-generationDeltaTime derivation; for the VRU service: first-VAM, minimum-interval and clustering gate in front of every
-transmission, low-frequency container rule.
+structural conditions they rest on (each necessary: remove it and some trajectory violates the bound).
+CAM: constants 100 / 1000 ms, T_CheckCamGen <= T_GenCamMin (cam-constants); one decision point, every generation under
+"first CAM" or `now - last CAM >= T_GenCam_DCC`, send state updated only after _send_cam returned (cam-min);
+condition-1 CAM exactly on the dynamics trigger, thresholds 4 deg (across the 0/360 wrap), 4 m, 0.5 m/s against
+reference values stored from the report just sent (cam-triggers); condition-2 CAM as soon as T_GenCam elapsed, every
+T_GenCam store clamped into [min, max] (cam-max); next check scheduled in a finally block, T_CheckCamGen apart
+(cam-rearm); evaluation and timers only while active, stop / start discipline (cam-active); LF container in the first
+CAM and after >= 500 ms, attached exactly when due, its timer restarted on that same decision (cam-lf);
+generationDeltaTime = (report time - ITS epoch) mod 65536; the CAM built from one snapshot of the position cache taken
+under its lock; every store to that cache is the callback's own argument (or a copy) or None, never derived from the
+old cache - the cache IS the latest report (gdt).
+VAM: constants (vam-constants); one decision point, every transmission under "first VAM" or a provable lower bound
+`report time - last VAM >= T_GenVamMin` (through sums / products), the reference being the generationDeltaTime of the
+VAM just sent, is_first_vam coherent with it (vam-min); clustering gate before every transmission (vam-gate); the VAM
+sent is the one filled from this report and the device data (gdt); an elapsed-time trigger with bound <= T_GenVamMax
+depending only on gate, not-first and a report timestamp - possibly split over several send sites that together cover
+that condition (vam-max); LF container in the first VAM, after >= 2 s or with a cluster operation, timer restarted
+exactly when attached, applied to every VAM before encoding (vam-lf).
+Not decided: the bounds and "at the first check at which" as run properties, wall-clock time.time() of the VAM LF
+timer, unit consistency of the VAM 4 m trigger.
 
-How the clauses are decided (no clause is a comparison of source text):
-  * guards in front of a call / store: the must-facts of the flow analysis at that node, turned into propositional
-    formulas over canonical atoms (sem.atoms; locals expanded, module constants folded) and compared by truth table
-    (`implies`); "exactly when" clauses additionally require that every guard written in the function is implied by
-    the expected condition (no extra guard);
-  * arguments: bound to the PARAMETER of the resolved callee they are passed for (`bind`), positionally or by keyword;
-  * small numeric predicates (_check_dynamics, _should_include_lf, the T_GenCam clamp, the VAM LF rule): their syntax
-    trees are interpreted (absint.MiniExec - the repository code is never run) on representatives of the cells cut out
-    by the thresholds, including the exact boundary values, and compared with the rule of the standard;
-  * stores: located as AST assignments to the attribute, their values compared up to canonical form (sem.same).
+How: guards are must-facts compared as propositional formulas over canonical atoms ("exactly when" also demands no
+extra guard); arguments are bound to the callee's parameters; small numeric predicates are interpreted by
+absint.MiniExec (repository code is never run) on representatives of the threshold cells, boundaries included.
 """
 from __future__ import annotations
 
